@@ -1,6 +1,7 @@
 // simdev: gen | replay | batch. See /verif/DESIGN.md §3.
 #include "common.h"
 #include "profiles.h"
+#include "clock.h"
 #include <unistd.h>
 #include <fcntl.h>
 #include <signal.h>
@@ -159,6 +160,9 @@ int main(int argc, char** argv) {
   if (cmd == "seed" && argc >= 5) {  // seed <profile> <verifSeed> <runIndex>
     printf("%llu\n", (unsigned long long)deriveSeed(strtoull(argv[3], nullptr, 10), argv[2], strtoull(argv[4], nullptr, 10)));
     return 0;
+  }
+  if (cmd == "sweep13" && argc >= 4) {
+    return sweepClockKeep((uint32_t)strtoul(argv[2], nullptr, 10), (uint32_t)strtoul(argv[3], nullptr, 10));
   }
   if (cmd == "replay" && argc >= 3) {
     Trace tr;
